@@ -61,6 +61,13 @@ def _src_member(src):
     return member_index(str(src))
 
 
+def _qualified(src):
+    """directory-qualified identifier '<parent dir>-<stem>' of what a result says it came from"""
+    from .c14_apps import dir_qualified_id
+
+    return dir_qualified_id(getattr(src, "unique_id", src))
+
+
 def _fresh_on(spec, comp, x):
     """a FRESH app (no writer) called on one input alone"""
     from . import c14_apps as A
@@ -111,22 +118,33 @@ def as_completed_case(ctx, w):
     kw = dict(show_progress=bool(w.get("show_progress")))
     if w.get("parallel"):
         kw.update(parallel=True, par_kw=dict(max_workers=w.get("max_workers", 2)))
-    exc, got = None, []
+    exc, got, src_types = None, [], []
     try:
         for r in app.as_completed(inputs, **kw):
-            got.append([_src_member(getattr(r, "source", None)), canon_value(getattr(r, "obj", r))])
+            src = getattr(r, "source", None)
+            got.append([_src_member(src), canon_value(getattr(r, "obj", r)), _qualified(src)])
+            src_types.append(type(src).__name__)
     except Exception as e:  # noqa
         exc = f"{type(e).__name__}: {e}"[:200]
-    exp = [[(x if comp == "steps" else _src_member(x)), _fresh_on(spec, comp, x)] for x in alone_on]
+    # identifiers by base name AND by directory + name: a caller-supplied id_from_source may use any part of the input
+    exp = [[(x if comp == "steps" else _src_member(x)), _fresh_on(spec, comp, x), (_qualified(f"{A.member_name(x)}.txt") if comp == "steps" else _qualified(os.path.basename(x) if form == "dstore" else x))]
+           for x in alone_on]
     key = lambda p: (p[0] is None, p[0] if p[0] is not None else 0, repr(p[1]))  # noqa: E731
     if exc or sorted(got, key=key) != sorted(exp, key=key):
         out = new_outcome()
         ids_g, ids_e = sorted(str(p[0]) for p in got), sorted(str(p[0]) for p in exp)
-        cls = "raises" if exc else ("inputs-not-once" if ids_g != ids_e else "value-differs")
+        cls = "raises" if exc else ("inputs-not-once" if ids_g != ids_e else
+                                    ("source-not-the-input" if sorted(p[2] for p in got) != sorted(p[2] for p in exp) else "value-differs"))
         add_failure(out, "spec", f"list(app.as_completed(inputs)) [{comp} composition, input form {form}, "
                     f"{'parallel' if w.get('parallel') else 'serial'}, show_progress={bool(w.get('show_progress'))}]: the results are not "
                     "'every input exactly once, under its own source, with the value the app returns on that input alone'",
                     dict(w), exp, dict(exc=exc, results=got), sig=f"as_completed:{comp}:{form}:{cls}")
+        return out["failures"][0]
+    want_type = {"steps": "RecA", "inner": "str", "writer": "str"}[comp] if form != "dstore" else "DataMember"
+    if any(t != want_type for t in src_types):
+        out = new_outcome()
+        add_failure(out, "corr", "as_completed: the source travelling with a result is not the input object itself (model: the proxy keeps its source)",
+                    dict(w), want_type, sorted(set(src_types)), confirmed=False)
         return out["failures"][0]
     if not w.get("parallel") and [p[0] for p in got] != [p[0] for p in exp] and form != "dstore":
         out = new_outcome()
@@ -155,7 +173,42 @@ def apply_form_case(ctx, w):
     return None if ok and not out["failures"] else out["failures"][0]
 
 
-def _run_apply_obj(ctx, base, spec, inputs, store_kind, parallel, max_workers, show_progress):
+def qualified_case(ctx, w):
+    """apply_to(inputs, id_from_source=<directory + file name>) where the same file names occur in several directories; serial or
+    parallel, both store classes: every input has exactly one record under ITS identifier, equal to the fresh app on that input alone"""
+    from . import c14_apps as A
+    from .c14 import build_inner, canon_value
+
+    ctx._c14wt = getattr(ctx, "_c14wt", 0) + 1
+    base = ctx.scratch / f"c14_qid_{ctx._c14wt}"
+    base.mkdir(exist_ok=True)
+    spec = _spec_from_json(w["spec"], [m for _, m in w["inputs"]])
+    paths = [str(base / d / f"{A.member_name(m)}.txt") for d, m in w["inputs"]]
+    res = _run_apply_obj(ctx, base, spec, paths, w["store"], bool(w.get("parallel")), w.get("max_workers", 2), False, id_from_source=A.dir_qualified_id,
+                         raw_ids=True)
+    expected = {A.dir_qualified_id(p): canon_value(build_inner(spec, False)(p)) for p in paths}
+    got = res["recs"]
+    problem = None
+    if res["exc"]:
+        problem = ("apply_to-raises", "no exception", res["exc"])
+    elif res["dup"]:
+        problem = ("record-duplicated", [], res["dup"])
+    elif sorted(got) != sorted(expected):
+        problem = ("record-missing" if set(expected) - set(got) else "record-extra", sorted(expected), sorted(got))
+    else:
+        bad = sorted(k for k in expected if expected[k] != got[k])
+        if bad:
+            problem = ("record-content-differs", {k: expected[k] for k in bad}, {k: got[k] for k in bad})
+    if problem:
+        out = new_outcome()
+        add_failure(out, "spec", f"apply_to with id_from_source = directory + file name over inputs sharing base names across directories "
+                    f"({'parallel' if w.get('parallel') else 'serial'}, {w['store']} store): the records are not one per input under the input's own identifier",
+                    dict(w), problem[1], problem[2], sig=f"qualified-id:{problem[0]}")
+        return out["failures"][0]
+    return None
+
+
+def _run_apply_obj(ctx, base, spec, inputs, store_kind, parallel, max_workers, show_progress, id_from_source=None, raw_ids=False):
     from cogent3.app.data_store import DataStoreDirectory
     from cogent3.app.io import write_db, write_json
     from cogent3.app.sqlite_data_store import DataStoreSqlite
@@ -173,6 +226,8 @@ def _run_apply_obj(ctx, base, spec, inputs, store_kind, parallel, max_workers, s
     exc = None
     try:
         kw = dict(parallel=True, par_kw=dict(max_workers=max_workers)) if parallel else {}
+        if id_from_source is not None:
+            kw["id_from_source"] = id_from_source
         app.apply_to(inputs, logger=False, show_progress=show_progress, **kw)
     except Exception as e:  # noqa
         exc = f"{type(e).__name__}: {e}"[:200]
@@ -229,6 +284,17 @@ def forms_stream(ctx, out, budget):
             w = dict(kind="apply_form", form=form, members=list(spec["members"]), spec=_spec_to_json(spec), store=rng.choice(["dir", "dir", "sqlite"]),
                      parallel=False, show_progress=(True if form == "list" else rng.random() < 0.5))
             cases.append((w, apply_form_case(ctx, w)))
+        # directory-qualified identifiers, shared base names across directories, serial and parallel, both store classes
+        for i in range(ctx.budget(8, 80) * (1 if key == 1 else 2)):
+            spec = gen_pipeline(rng, rng.randint(2, 5), allow_sleep=(i % 2 == 1), family=rng.random() < 0.3)
+            inputs = []
+            for j, m in enumerate(spec["members"]):
+                dirs = rng.sample(["batchA", "batchB", "batchC"], 2 if (j == 0 or rng.random() < 0.5) else 1)
+                inputs += [[d, m] for d in dirs]
+            rng.shuffle(inputs)
+            w = dict(kind="qualified_id", form="list", inputs=inputs, members=[m for _, m in inputs], spec=_spec_to_json(spec), store=rng.choice(["dir", "sqlite"]),
+                     parallel=(i % 2 == 1), max_workers=rng.choice([2, 3]), show_progress=False)
+            cases.append((w, qualified_case(ctx, w)))
         cache[key] = cases
     for w, f in cache[key]:
         out["evaluations"] += 1
@@ -245,4 +311,6 @@ def replay_case(ctx, inp):
         return as_completed_case(ctx, inp)
     if inp.get("kind") == "apply_form":
         return apply_form_case(ctx, inp)
+    if inp.get("kind") == "qualified_id":
+        return qualified_case(ctx, inp)
     return None
